@@ -17,7 +17,7 @@ EXTENDS TraceArt
 VARIABLE gt      \* gt[t]: the L1 model's tree for real tree t
 
 L1 == INSTANCE ArtTree WITH
-        Keys <- <<>>, Family <- "alpha", RangeBad <- {}, EmitEdges <- FALSE, MaxDepth <- 0, Ramp <- FALSE, StartFull <- FALSE, CovOn <- FALSE,
+        Keys <- <<>>, Family <- "alpha", RangeBad <- {}, EmitEdges <- FALSE, MaxDepth <- 0, Ramp <- FALSE, StartFull <- FALSE, ProtectEnds <- TRUE, FillCap <- 0, DrainFloor <- 0, CovOn <- FALSE,
         SizeOnSplit <- TRUE, RangeDepth <- "perPath", SearchGuard <- TRUE, LcpBranch <- TRUE, KCounter <- "perIteration",
         tree <- gt, size <- l, m <- m, h <- <<>>, lastOK <- TRUE, phase <- "fill"
 
